@@ -15,6 +15,8 @@
 //                         the N ids (a read outside [begin,end)) throws.  Every index printed below is a position.
 //   F <method> <k>        tapkee_internal::find_neighbors(method, begin, end, cb, k, false)
 //                         method: B (Brute) V (VpTree) C (CoverTree)
+//   G <method> <k>        the same with check_connectivity = true (the search is repeated with 2k, clamped to N-1, until
+//                         the neighbourhood graph is connected); output "G <method> <k> <nrows>" + rows as for F
 //   O <k> <row>           the brute-force nth_element ORACLE observed: rebuilds the `distances`
 //                         vector of that row exactly as find_neighbors_bruteforce_impl does (both the
 //                         shipped layout "all samples, position k+1" and the repaired layout "other
@@ -142,13 +144,13 @@ template <class CB> static void print_rows(const char* tag, const Neighbors& nb)
     }
 }
 
-template <class CB> static void cmd_find(char method, int k, Samples& s, CB cb)
+template <class CB> static void cmd_find(char method, int k, Samples& s, CB cb, bool conn = false)
 {
     NeighborsMethod m = Brute;
     if (method == 'V') m = VpTree;
     if (method == 'C') m = CoverTree;
-    Neighbors nb = find_neighbors(m, s.begin(), s.end(), cb, (IndexType)k, false);
-    printf("F %c %d %zu\n", method, k, nb.size());
+    Neighbors nb = find_neighbors(m, s.begin(), s.end(), cb, (IndexType)k, conn);
+    printf("%c %c %d %zu\n", conn ? 'G' : 'F', method, k, nb.size());
     print_rows<CB>("r", nb);
 }
 
@@ -259,12 +261,12 @@ template <class CB> static void cmd_dump_cover(Samples& s, CB cb)
 
 template <class CB> static void dispatch(const std::string& cmd, std::istringstream& is, Samples& s, CB cb)
 {
-    if (cmd == "F")
+    if (cmd == "F" || cmd == "G")
     {
         std::string m;
         int k;
         is >> m >> k;
-        cmd_find(m.empty() ? 'B' : m[0], k, s, cb);
+        cmd_find(m.empty() ? 'B' : m[0], k, s, cb, cmd == "G");
     }
     else if (cmd == "O")
     {
